@@ -107,6 +107,28 @@ Theorem C23_filtered_search_noninterference :
 Proof. exact filtered_search_noninterference. Qed.
 Print Assumptions C23_filtered_search_noninterference.
 
+(* (9b) Memvid::find_sketch_candidates (for every scoring function of the frames' index texts, every
+   query, threshold and max_candidates) is an observation of the logical state: identical, as an ORDERED
+   list, for all oracle streams -- in particular it does not depend on HashOrd, although the track keeps
+   its entries in a HashMap: the code scans frame_order. *)
+Theorem C23_sketch_candidates_noninterference :
+  forall (query : Type) (score : N -> query -> N -> option N) (o1 o2 : oracle) (h : list dop), explicit h = true ->
+    forall q thr max,
+      sketch_candidates query score (fst (drun o1 dstate0 h)) q thr max =
+      sketch_candidates query score (fst (drun o2 dstate0 h)) q thr max.
+Proof. exact sketch_candidates_noninterference. Qed.
+Print Assumptions C23_sketch_candidates_noninterference.
+
+(* ... and the statement has content: were the entries scanned in the map's iteration order, HashOrd would
+   flow into the answer as soon as scores tie (three frames with one index text, max_candidates 2). *)
+Theorem C23_hashed_scan_would_flow :
+  sketch_candidates unit all_tie (fst (drun (oH 0) dstate0 h_tied)) tt 10 2 = [(0, 5); (1, 5)] /\
+  sketch_candidates unit all_tie (fst (drun (oH 1) dstate0 h_tied)) tt 10 2 = [(0, 5); (1, 5)] /\
+  sketch_candidates_hashed unit all_tie (oH 0) 0 (fst (drun (oH 0) dstate0 h_tied)) tt 10 2 = [(0, 5); (1, 5)] /\
+  sketch_candidates_hashed unit all_tie (oH 1) 0 (fst (drun (oH 1) dstate0 h_tied)) tt 10 2 = [(1, 5); (2, 5)].
+Proof. exact hashed_scan_would_flow. Qed.
+Print Assumptions C23_hashed_scan_would_flow.
+
 (* (10) the hypothesis `explicit` is needed and satisfiable: a put without a timestamp lets `now` flow
    into the time index (logical state); the witnesses above are explicit histories with deletes,
    embeddings, cards. *)
